@@ -184,3 +184,32 @@ impl<S: BuildHasher> MapOperationQueue<S> {
         }
     }
 }
+
+#[cfg(swimos_verif)]
+impl MapOperationQueue<RandomState> {
+    /// Create an empty queue whose epoch counter starts at the specified value.
+    pub fn verif_with_head_epoch(head_epoch: usize) -> Self {
+        let mut queue = Self::new();
+        queue.head_epoch = head_epoch;
+        queue
+    }
+}
+
+#[cfg(swimos_verif)]
+impl<S> MapOperationQueue<S> {
+    pub fn verif_head_epoch(&self) -> usize {
+        self.head_epoch
+    }
+
+    /// Canonical (iteration order independent) rendering of the state, with the epochs expressed
+    /// relative to the head of the queue.
+    pub fn verif_key(&self) -> String {
+        let mut epochs = self
+            .epoch_map
+            .iter()
+            .map(|(k, e)| (k.as_ref().to_string(), e.wrapping_sub(self.head_epoch)))
+            .collect::<Vec<_>>();
+        epochs.sort();
+        format!("q={:?};e={:?}", self.queue, epochs)
+    }
+}
